@@ -124,6 +124,7 @@ def case_probe(c, out):
     evs = []
     disc.addListenerByName("LinkEvent", lambda e: evs.append((bool(e.added), tuple(e.link))))
     net = w.net
+    net.reset_budget(10 ** 9)
     net.add_switch(d2, ports=_phy_ports(d2, [p2]), expire=False, connect=False)
     net.add_switch(d1, ports=_phy_ports(d1, [p1]), expire=False, connect=False)
     if style == "pox":
@@ -256,6 +257,7 @@ def case_topo(c, out):
     disc.addListenerByName("LinkEvent", on_link)
     net = w.net
     net.record = False
+    net.reset_budget(10 ** 9)      # probes are never re-forwarded: no storm to guard against
     nports = {}
     for (a, ap, b, bp, f, r) in cables:
       nports[a] = max(nports.get(a, 0), ap)
@@ -320,8 +322,6 @@ def case_topo(c, out):
       offenders = sorted(d for d in connected
                          if any((((d, p) in nf) != ((d, p) in lp and (d, p) not in tports)) for p in ports[d]))
       on_tree = any(deg[d] for d in offenders)
-      if _S.get("debug"):
-        print("offenders", offenders, "tree", tree, "tports", sorted(tports), "nf", sorted(nf))
       state = "NO_FLOOD %r, adjacency %r" % (sorted(nf), sorted(got))
       for d in sorted(connected):
         bad = [p for p in ports[d] if (d, p) not in lp and (d, p) in nf]
@@ -406,7 +406,8 @@ def case_topo(c, out):
       if o == "connect":
         d = dpids[op["s"] % n]
         if d not in connected:
-          if d in st_.setdefault("was_connected", set()):
+          if d in st_.setdefault("was_connected", set()) and not st_.get("reconnect"):
+            st_["reconnect"] = True
             out.label("history:reconnect")
           st_["was_connected"].add(d)
           connected.add(d)
@@ -464,9 +465,11 @@ def case_topo(c, out):
             "nothing" if last is None else ("added" if last else "removed")),
             shape=("removed-first" if last is None else ("added-twice" if added else "removed-twice")))
       del order_bad[:]
-      if len(out.violations) > 6 or st_.get("stop"):
+      if len(out.violations) > 6:
         break
 
+    if net.overflow:
+      raise HarnessError("data-plane delivery budget exceeded")
     all_links = [dl for dl in dirs if dl is not None]
     cyc, oneway, parallel = _graph_labels(out, all_links)
     out.nontrivial = bool(out.nontrivial or removed_tree_link[0]) and st_["quiesced"] > 0
